@@ -95,6 +95,7 @@ class SourceTree:
             self.inlined += inline.inline_new_constants(self._asts, ref)
             self.inlined += inline.unroll_literal_loops(self._asts, ref)
             self.inlined += inline.normalize_idioms(self._asts, ref)
+            self.inlined += inline.keyset_dicts_to_sets(self._asts, ref)
 
     def ast(self, relpath):
         self._parse_all()
